@@ -60,11 +60,11 @@ def build_all():
     import fcntl
     with open(lock, "w") as lf:
         fcntl.flock(lf, fcntl.LOCK_EX)
-        p = sh(["cargo", "build", "--offline"], cwd=HARNESS, env=env, timeout=1800)
+        p = sh(["cargo", "build", "--offline", "--target-dir", TARGET], cwd=HARNESS, env=env, timeout=1800)
         if p.returncode != 0:
             raise ToolError("harness build failed:\n" + p.stderr.decode("utf8", "replace")[-6000:])
         p = sh(["cargo", "build", "--offline", "--config", os.path.join(HARNESS, ".cargo", "config.toml"),
-                "--manifest-path", os.path.join(REPO, "Cargo.toml"), "--bin", "cargo-tauri-typegen"],
+                "--manifest-path", os.path.join(REPO, "Cargo.toml"), "--bin", "cargo-tauri-typegen", "--target-dir", TARGET],
                cwd=WORK, env=env, timeout=1800)
         if p.returncode != 0:
             raise ToolError("cli build failed:\n" + p.stderr.decode("utf8", "replace")[-6000:])
